@@ -61,7 +61,8 @@ def case_term(r):
         coq_list([coq_list([coq_res(x) for x in th]) for th in r["res"]]),
         "[" + ";".join(str(x) for x in r["pslots"]) + "]",
         f[0], f[1], f[2], f[3], "true" if f[4] else "false")
-    return "(%s, %s)" % (inp, obs)
+    # explicit types: a shard in which every result list is empty must still type-check
+    return "((%s : nat * list (list op) * schedule), (%s : observation))" % (inp, obs)
 
 
 def run(ck):
@@ -82,7 +83,7 @@ def run(ck):
     json.dump([{"Name": n, "Cap": c, "Progs": [[list(o) for o in p] for p in pr], "Sched": sc}
                for n, c, pr, sc, _ in WITNESSES], open(win, "w"))
     out = os.path.join(ck.work, "c10.jsonl")
-    nrand = {"quick": 3000, "thorough": 30000}[ck.tier]
+    nrand = {"quick": 1200, "thorough": 20000}[ck.tier]
     rc, log = ccmod.go_test(ck, d, "rt", {"VERIF_OUT": out, "VERIF_N": str(nrand), "VERIF_IN": win},
                             timeout=240 if ck.tier == "quick" else 1700)
     ck.phase("harness ran")
